@@ -348,6 +348,21 @@ def explore_fact(case):
     kind, n, tier = case["kind"], case["n"], case["tier"]
     res = core.Result()
     site = "util.%s_symmetric_decomposition" % kind
+    # the caller's matrix is left alone (numeric SX, DM and symbolic SX input): "reconstruct their input" is about the matrix the caller holds
+    if n >= 2:
+        uu = _util()
+        Pn = np.array([[float(x) for x in r] for r in spd_lattice(n, tier)[1]])
+        for form, mkP in (("numeric_SX", lambda: ca.SX(ca.DM(Pn))), ("DM", lambda: ca.DM(Pn)), ("symbolic_SX", lambda: ca.SX.sym("P", n, n))):
+            res.count("evaluations")
+            try:
+                Pin = mkP()
+                before = str(Pin)
+                A_, D_ = (uu.ldl_symmetric_decomposition(Pin) if kind == "ldl" else uu.udu_symmetric_decomposition(Pin))
+                after = str(Pin)
+            except Exception:
+                continue  # forms the routine does not accept are judged elsewhere
+            if before != after:
+                res.fail(site=site, clause="argument_not_mutated", cls=form, detail=dict(n=n, before=before[:200], after=after[:200]), sub="fact", case=case)
     try:
         f = fn_fact(kind, n)
     except Exception as ex:
@@ -470,6 +485,27 @@ def explore_rk4(case):
               ("lyapunov", lambda t_, P_: ca.mtimes(ca.DM([[0, 1.0], [-2.0, -0.3]]), P_) + ca.mtimes(P_, ca.DM([[0, 1.0], [-2.0, -0.3]]).T) + ca.DM([[0.1, 0], [0, 0.2]]),
                [2.0, 0.0, 0.0, 3.0], (2, 2)),
               ("coupled3", lambda t_, y_: ca.vertcat(y_[1] + y_[2], y_[0] - y_[2], 1 + y_[0]), [0.0, 0.5, 0.0], (3, 1))]
+    # matrix- and row-shaped states against an independent RK4 tableau (the estimators integrate the covariance factor as a matrix)
+    def rk4_np(fn, t0, y0, h_):
+        k1 = fn(t0, y0)
+        k2 = fn(t0 + h_ / 2, y0 + h_ / 2 * k1)
+        k3 = fn(t0 + h_ / 2, y0 + h_ / 2 * k2)
+        k4 = fn(t0 + h_, y0 + h_ * k3)
+        return y0 + h_ / 6 * (k1 + 2 * k2 + 2 * k3 + k4)
+    Am = np.array([[0, 1.0], [-2.0, -0.3]])
+    shaped = [("lyapunov_2x2", lambda t_, P_: ca.mtimes(ca.DM(Am), P_) + ca.mtimes(P_, ca.DM(Am).T) + ca.DM([[0.1, 0], [0, 0.2]]),
+               lambda t_, P_: Am @ P_ + P_ @ Am.T + np.array([[0.1, 0], [0, 0.2]]), np.array([[2.0, 0.5], [0.5, 3.0]])),
+              ("row_1x3", lambda t_, y_: ca.horzcat(y_[0, 1] + t_, -y_[0, 0], 1 + y_[0, 2] * t_), lambda t_, y_: np.array([[y_[0, 1] + t_, -y_[0, 0], 1 + y_[0, 2] * t_]]), np.array([[1.0, -0.5, 2.0]])),
+              ("matrix_3x2", lambda t_, Y_: ca.mtimes(ca.DM([[0, 1.0, 0], [-1.0, 0, 0.5], [0.2, 0, -0.1]]), Y_) + t_,
+               lambda t_, Y_: np.array([[0, 1.0, 0], [-1.0, 0, 0.5], [0.2, 0, -0.1]]) @ Y_ + t_, np.array([[1.0, 2.0], [0.0, -1.0], [0.5, 0.25]]))]
+    for nm, fld, fld_np, y0m in shaped:
+        for hh in (0.1, -0.5, 1.0):
+            res.count("evaluations")
+            res.nontrivial.add(hash(("shape", nm, hh)))
+            got_ = np.array(ca.evalf(ca.densify(u_.rk4(fld, 0.3, ca.SX(ca.DM(y0m)), ca.SX(hh)))), dtype=float)
+            want_ = rk4_np(fld_np, 0.3, y0m, hh)
+            if got_.shape != want_.shape or not np.all(np.isfinite(got_)) or np.max(np.abs(got_ - want_)) > 1e-12 * (1 + np.max(np.abs(want_))):
+                res.fail(site="util.rk4", clause="one_step_of_the_classical_tableau_for_any_state_shape", cls=nm, detail=dict(state=nm, h=hh, got=got_, want=want_), sub="rk4", case=case)
     for nm, fld, y0v, shp in fields:
         for hh in (0.1, -0.5):
             res.count("evaluations")
